@@ -255,7 +255,15 @@ func CheckIso[S, T any](ic IsoCase[S, T]) {
 					list[i] = mk(sub, depth+1)
 				}
 			}
-			return ic.Morph(list...)
+			keep := append([]optics.Isomorphism[S, T](nil), list...)
+			m := ic.Morph(list...)
+			for i := range keep {
+				if !sameIso(keep[i], list[i]) {
+					vio(p, c, "iso-caller-list", "%s: Morphism(list...) rewrote entry %d of the caller's slice", pk.name, i)
+					break
+				}
+			}
+			return m
 		}
 		if len(pk.idx) == 1 && pk.idx[0] >= 0 {
 			iso = ic.Isos[pk.idx[0]] // a bare Iso, not wrapped in a Morphism
@@ -381,4 +389,21 @@ func MapLens() {
 		Rec.Count("put_get_observations", 1)
 	}
 	End(c, "C04/maplens", true)
+}
+
+func sameIso[S, T any](a, b optics.Isomorphism[S, T]) bool {
+	if a == nil || b == nil {
+		return a == nil && b == nil
+	}
+	va, vb := reflect.ValueOf(a), reflect.ValueOf(b)
+	if va.Type() != vb.Type() {
+		return false
+	}
+	if va.Type().Comparable() {
+		return a == b
+	}
+	if va.Kind() == reflect.Slice {
+		return va.Pointer() == vb.Pointer() && va.Len() == vb.Len()
+	}
+	return true
 }
